@@ -155,7 +155,13 @@ func boundACL(m *ciscomodel.Dev, intf string) string {
 }
 
 // runCase evaluates one (A,B) pair under the configured oracles.
-func (x *approvex) runCase(sp *space, idx int64, a, b core.Files) {
+func (x *approvex) runCase(sp *space, idx int64, a, b core.Files) *ciscomodel.Dev {
+	return x.runCaseTag(sp, idx, a, b, "")
+}
+
+// runCaseTag: tag != "" marks a derived case (cut state); signatures get
+// the tag as prefix.
+func (x *approvex) runCaseTag(sp *space, idx int64, a, b core.Files, tag string) *ciscomodel.Dev {
 	res := x.res
 	res.Evaluations++
 	ios := sp.model == "IOS"
@@ -164,11 +170,19 @@ func (x *approvex) runCase(sp *space, idx int64, a, b core.Files) {
 	case 1:
 		res.Count("rejected_by_tool", 1)
 		res.Outcome("rejected:" + short(firstLine(out.Stderr), 60))
-		return
+		if tag != "" {
+			// the tool rejects a state its own script produced
+			x.violation(sp, idx, a, b, nil, 0, "resume-accepted", tag+"rejected:"+rejectSig(out.Stderr),
+				"tool rejects the partially changed device: "+out.Stderr)
+		}
+		return nil
 	case 2:
 		res.Count("tool_panic(see C20)", 1)
 		res.Outcome("panic:" + out.Site)
-		return
+		if tag != "" {
+			x.violation(sp, idx, a, b, nil, 0, "resume-accepted", tag+"panic:"+out.Site, out.Panic)
+		}
+		return nil
 	}
 	script := out.Script()
 	res.Transitions++
@@ -186,6 +200,11 @@ func (x *approvex) runCase(sp *space, idx int64, a, b core.Files) {
 	var before *ciscomodel.Dev
 	tb := ciscomodel.Load(b.Main, ios)
 	scope := ciscomodel.ScopeOf(tb)
+	multipart := b.V6 != "" || b.Raw != "" || a.V6 != "" || a.Raw != ""
+	if x.orc.cuts && tag == "" {
+		x.runCuts(sp, idx, a, b, script)
+		return nil
+	}
 
 	// C14 packets: verdict vector before and for the target.
 	var vOld, vNew []string
@@ -255,29 +274,31 @@ func (x *approvex) runCase(sp *space, idx int64, a, b core.Files) {
 		if !isSafety {
 			if x.orc.exec {
 				x.violation(sp, idx, a, b, script, step, "exec-accept",
-					"exec:"+execSig(err), fmt.Sprintf("command %q: %v", cmd, err))
+					tag+"exec:"+execSig(err), fmt.Sprintf("command %q: %v", cmd, err))
 			} else {
 				res.Count("skipped_exec_error(see C08)", 1)
 			}
-			return
+			return nil
 		}
 		if x.orc.packets || x.orc.routes {
 			x.violation(sp, idx, a, b, script, step, "step-safety",
 				stepSig(sp, script, step, err), err.Error())
 		}
-		return
+		return nil
 	}
 	if x.orc.conv {
-		if eq, msg := ciscomodel.SemEqual(m, tb, scope); !eq {
-			x.violation(sp, idx, a, b, script, len(script), "sem-equal", "sem-differs",
+		if multipart {
+			res.Count("sem_skipped_parts", 1)
+		} else if eq, msg := ciscomodel.SemEqual(m, tb, scope); !eq {
+			x.violation(sp, idx, a, b, script, len(script), "sem-equal", tag+"sem-differs:"+semDiffKind(m, tb, scope)+remarkFlag(ios, a, b),
 				"state after script not equivalent to target\n"+msg)
-			return
+			return nil
 		}
-		if len(script) == 0 {
+		if len(script) == 0 && !multipart {
 			if eq, msg := ciscomodel.SemEqual(ciscomodel.Load(a.Main, ios), tb, scope); !eq {
-				x.violation(sp, idx, a, b, script, 0, "unchanged-only-if-equal", "unchanged-but-different",
+				x.violation(sp, idx, a, b, script, 0, "unchanged-only-if-equal", tag+"unchanged-but-different",
 					"tool reports no change but device differs from target\n"+msg)
-				return
+				return nil
 			}
 		}
 		// second compare must be silent
@@ -289,12 +310,37 @@ func (x *approvex) runCase(sp *space, idx int64, a, b core.Files) {
 			out2 := x.sc.Compare(sp.model, core.Files{Main: p}, b)
 			res.Transitions++
 			if out2.Status != 0 || len(out2.Script()) != 0 {
-				x.violation(sp, idx, a, b, script, len(script), "second-compare-silent", "second-compare",
+				x.violation(sp, idx, a, b, script, len(script), "second-compare-silent", tag+"second-compare:"+scriptKind(out2.Script())+remarkFlag(ios, a, b),
 					fmt.Sprintf("second compare not silent (status %d): %s\n%s\nstate:\n%s",
 						out2.Status, strings.Join(out2.Script(), " | "), out2.Stderr, p))
-				return
+				return nil
 			}
 		}
+	}
+	return m
+}
+
+// runCuts (C10): for every proper prefix of the flattened script, the state
+// reached is handed back to the tool; the second script must be accepted
+// and must converge.
+func (x *approvex) runCuts(sp *space, idx int64, a, b core.Files, script []string) {
+	ios := sp.model == "IOS"
+	cmds := flatten(script)
+	m := ciscomodel.Load(a.Main, ios)
+	for k := 0; k+1 < len(cmds); k++ {
+		if err := m.Exec(cmds[k]); err != nil {
+			x.res.Count("skipped_exec_error(see C08)", 1)
+			return
+		}
+		cut := m.Clone()
+		cut.ResetSession()
+		text := cut.Print()
+		x.res.Count("cut_states", 1)
+		save := x.orc
+		x.orc = oracles{conv: true, exec: true}
+		tag := "cut:"
+		x.runCaseTag(sp, idx*1000+int64(k+1), core.Files{Main: text}, b, tag)
+		x.orc = save
 	}
 }
 
@@ -613,3 +659,192 @@ func init() {
 }
 
 var _ = sort.Strings
+
+// runChain: breadth-first chain of approves (shard 0 only; the chain is
+// small).  States are printed device states; successors: approve towards
+// every target of the set.  Reaches states (left-over generated names,
+// -DRC-n indices) that no initial state has.
+func (x *approvex) runChain(model string, ctx *core.Ctx) {
+	if ctx.Shard != 0 {
+		return
+	}
+	depth := 2
+	if ctx.Thorough() {
+		depth = 3
+	}
+	var inits []string
+	var targets []string
+	if model == "ASA" {
+		inits = []string{
+			asaIntf,
+			asaIntf + groupsFor([]int{0, 3, 5}, c01Lines) + asaACLText("inside_in", []int{0, 3, 5}, c01Lines),
+			asaIntf + vpnText(1+4*1, "-DRC-0"),
+			asaIntf + groupText("g1-DRC-0", 3) + groupText("g1-DRC-1", 5) + groupText("g2-DRC-0", 3),
+		}
+		targets = []string{
+			groupsFor([]int{3, 5}, c01Lines) + asaACLText("inside_in", []int{3, 5}, c01Lines),
+			groupsFor([]int{0, 3, 6, 5}, c01Lines) + asaACLText("inside_in", []int{0, 3, 6, 5}, c01Lines),
+			groupText("g1", 5) + groupText("g2", 3) + "access-list inside_in extended permit ip object-group g1 any4\naccess-list inside_in extended permit ip any4 object-group g2\naccess-group inside_in in interface inside\n",
+			groupText("g1", 3) + groupText("g2", 3) + "access-list inside_in extended permit ip object-group g1 any4\naccess-list inside_in extended permit ip any4 object-group g2\naccess-group inside_in in interface inside\n",
+			vpnText(1+4*2+16*1, ""),
+			vpnText(2+4*3+16*2+64*1, ""),
+			asaACLText("inside_in", []int{1, 0}, c01Lines) + asaRoutes[0] + "\n" + asaRoutes[2] + "\n",
+			asaACLText("inside_in", []int{0, 1, 5}, c01Lines) + asaRoutes[1] + "\n",
+		}
+	} else {
+		e0 := iosIntf("Ethernet0", "10.0.0.1", "ip access-group inside_in in")
+		inits = []string{
+			iosIntf("Ethernet0", "10.0.0.1"),
+			iosACLBody("inside_in", []int{0, 2, 3}, c02Lines, false) + e0,
+			iosACLBody("inside_in-DRC-0", []int{1, 3}, c02Lines, true) + iosIntf("Ethernet0", "10.0.0.1", "ip access-group inside_in-DRC-0 in"),
+		}
+		targets = []string{
+			iosACLBody("inside_in", []int{0, 3}, c02Lines, false) + e0,
+			iosACLBody("inside_in", []int{1, 0, 2, 3}, c02Lines, false) + e0,
+			iosACLBody("inside_in", []int{2, 0, 7, 1}, c02Lines, false) + e0,
+			iosACLBody("inside_in", []int{7, 2, 4}, c02Lines, false) + iosACLBody("e0_out", []int{0, 3}, c02Lines, false) +
+				iosIntf("Ethernet0", "10.0.0.1", "ip access-group inside_in in", "ip access-group e0_out out"),
+			iosACLBody("other", []int{0, 3}, c02Lines, false) + iosIntf("Ethernet0", "10.0.0.1", "ip access-group other in") + iosRoutes[0] + "\n",
+			iosACLBody("inside_in", []int{0, 3}, c02Lines, false) + e0 + iosRoutes[1] + "\n" + iosRoutes[2] + "\n",
+		}
+	}
+	sp := &space{name: "chain", model: model}
+	seen := map[string]int{}
+	frontier := inits
+	for _, s := range inits {
+		seen[s] = 0
+	}
+	var serial int64
+	deeper := 0
+	for d := 1; d <= depth; d++ {
+		var next []string
+		for _, st := range frontier {
+			for _, t := range targets {
+				if x.ctx.Expired() {
+					x.res.Incomplete = append(x.res.Incomplete, fmt.Sprintf("deadline in chain %s depth %d", model, d))
+					return
+				}
+				serial++
+				after := x.runCase(sp, serial, core.Files{Main: st}, core.Files{Main: t})
+				if after == nil {
+					continue
+				}
+				after.ResetSession()
+				p := after.Print()
+				if _, ok := seen[p]; !ok {
+					seen[p] = d
+					next = append(next, p)
+					if d >= 2 {
+						deeper++
+					}
+				}
+			}
+		}
+		frontier = next
+	}
+	x.res.Count("chain_states_"+model, int64(len(seen)))
+	x.res.Count("chain_states_first_reached_at_depth>=2_"+model, int64(deeper))
+	x.res.Count("chain_max_depth_"+model, int64(depth))
+}
+
+
+// semDiffKind names the kinds of anchors on which two views differ.
+func semDiffKind(a, b *ciscomodel.Dev, sc *ciscomodel.Scope) string {
+	sa, sb := a.Sem(sc), b.Sem(sc)
+	inA, inB := map[string]bool{}, map[string]bool{}
+	for _, s := range sa {
+		inA[s] = true
+	}
+	for _, s := range sb {
+		inB[s] = true
+	}
+	kinds := map[string]bool{}
+	kind := func(s string) string {
+		w := strings.Fields(s)
+		if len(w) == 0 {
+			return ""
+		}
+		if w[0] == "crypto" && len(w) > 1 {
+			return "crypto-" + w[1]
+		}
+		if w[0] == "interface" && len(w) > 2 {
+			return "interface-" + strings.Join(w[2:min(4, len(w))], "-")
+		}
+		return w[0]
+	}
+	for _, s := range sa {
+		if !inB[s] && s != "" {
+			kinds["dev+"+kind(s)] = true
+		}
+	}
+	for _, s := range sb {
+		if !inA[s] && s != "" {
+			kinds["tgt+"+kind(s)] = true
+		}
+	}
+	var l []string
+	for k := range kinds {
+		l = append(l, k)
+	}
+	sort.Strings(l)
+	return strings.Join(l, ",")
+}
+
+func scriptKind(script []string) string {
+	kinds := map[string]bool{}
+	for _, line := range script {
+		w := strings.Fields(line)
+		k := w[0]
+		if k == "no" && len(w) > 1 {
+			k = "no-" + w[1]
+		}
+		// sequence numbers vary with the position: abstract them
+		k = strings.Map(func(r rune) rune {
+			if r >= '0' && r <= '9' {
+				return -1
+			}
+			return r
+		}, k)
+		k = strings.TrimSuffix(k, "\\N")
+		if k == "" || k == "no-" {
+			k += "SEQ"
+		}
+		kinds[k] = true
+	}
+	var l []string
+	for k := range kinds {
+		l = append(l, k)
+	}
+	sort.Strings(l)
+	if len(l) > 4 {
+		l = l[:4]
+	}
+	return strings.Join(l, ",")
+}
+
+
+// remarkFlag marks IOS cases whose ACLs contain remark lines (the block
+// logic of the tool treats a remark as member of the preceding block).
+func remarkFlag(ios bool, a, b core.Files) string {
+	if ios && (strings.Contains(a.Main, " remark ") || strings.Contains(b.Main, " remark ") ||
+		strings.Contains(b.Raw, " remark ")) {
+		return ":with-remark"
+	}
+	return ""
+}
+
+
+// rejectSig abstracts the tool's first ERROR line: names and numbers are
+// dropped so that one message form is one signature.
+func rejectSig(stderr string) string {
+	for _, l := range strings.Split(stderr, "\n") {
+		if strings.HasPrefix(l, "ERROR>>> ") {
+			l = strings.TrimPrefix(l, "ERROR>>> ")
+			if i := strings.Index(l, " in crypto map "); i >= 0 {
+				l = l[:i+len(" in crypto map")]
+			}
+			return execSig(fmt.Errorf("%s", l))
+		}
+	}
+	return execSig(fmt.Errorf("%s", firstLine(stderr)))
+}
